@@ -72,7 +72,28 @@ def oracle(chk, cases):
     for c, o in zip(cases, out):
         c['table'] = [sc.token(t[0] - 1, t[1], t[2], t[3]) for t in o['table']]
         c['index'] = {ab: [(p[0], p[1]) for p in o['index'][a]] for a, ab in enumerate(c['ABs'])}
+        tt, ti = twin(c['cat'], c['mask'], c['ABs'], c['cleaned'])
+        if tt != c['table'] or ti != c['index']:
+            raise RuntimeError(f'twin of CatalogIndex layer D disagrees with TLC on {c["cat"]} mask={c["mask"]} ABs={c["ABs"]} cleaned={c["cleaned"]}')
     return cases
+
+
+def twin(cat, mask, ABs, cleaned):
+    """Python transliteration of layer D of CatalogIndex.tla (ExpectedTable / ExpectedIndex).  oracle() requires it to agree with
+    TLC on every case TLC computes; it is then used for catalogs beyond TLC's comfortable size."""
+    table, index = [], {}
+    for ab in ABs:
+        index[ab] = []
+        for s, sl in enumerate(cat):
+            lay, _, _ = sc.layout(sl, ab)
+            for k, h in enumerate(sl):
+                if not mask[s][k]:
+                    continue
+                p0, n0, q0, m0 = lay[k]
+                toks = ([] if (cleaned and h['away']) else [sc.token(s, ab, 'o', p0 + t) for t in range(n0)]) + ([sc.token(s, ab, 'm', q0 + t) for t in range(m0)] if cleaned else [])
+                index[ab].append((len(table), len(toks)))
+                table += toks
+    return table, index
 
 
 def kept_rows(c):
